@@ -218,7 +218,9 @@ func TDRandom(rng *rand.Rand, n int, startID int) []*TDCase {
 	// identities that differ only in a "special" value: printf / date verbs with different flags, blanks, case,
 	// path-like and non-ASCII values, as parameter value, as tag value and as process name
 	special := []string{"%d", "%5d", "%05d", "%s", "%10s", "%-10s", "%.2f", "%8.3f", "%Y-%m-%d", "%Y-%-m-%-d", "100%", "%%", "%", "a b", "a  b", "a_b", "a-b",
-		"A", "a", "Qc Report", "qc_report", "qc report", "a/b", "a\\b", "a.b", "\u00e9", "e\u0301", "x=1", "x=1,y=2", "{p:x}", "$HOME", "*", "a*"}
+		"A", "a", "Qc Report", "qc_report", "qc report", "a/b", "a\\b", "a.b", "\u00e9", "e\u0301", "x=1", "x=1,y=2", "{p:x}", "$HOME", "*", "a*",
+		// values as they come out of files and command output: the same word with and without surrounding white space
+		"a ", " a", "a\n", "\ta", "a\r\n", " a ", "a  "}
 	id := startID + n + 1000
 	for _, v := range special {
 		id += 3
